@@ -871,6 +871,9 @@ def Array(
                         # the buffer ended part-way through an element, not between elements
                         raise DataError("Buffer ended inside an array element") from err
                     break
+                if stream.tell() == _start:
+                    # an element that takes no bytes would be decoded for ever
+                    raise DataError("Unbounded array of zero-width elements")
             return _array
 
         @classmethod
